@@ -457,7 +457,10 @@ func (g *gen) step() (Step, string) {
 			f.Kind = []string{fakehaproxy.FaultIOError, fakehaproxy.FaultRefuse, fakehaproxy.FaultNoise}[rng.Intn(3)]
 			if len(st.Hosts) > 0 && rng.Intn(3) == 0 {
 				h := st.Hosts[rng.Intn(len(st.Hosts))]
-				if h.Crt == "" {
+				if h.Crt == "" || h.Crt == "shared" {
+					// hosts sharing one certificate file send the same two commands in an order
+					// Go's map iteration picks: a fault on "the k-th command for the file" could
+					// not be attributed to one of them
 					continue
 				}
 				f.Target = "cert:" + h.Crt
